@@ -162,7 +162,7 @@ theorem partitionIndices_map_flat (inds : List Int) (lens : List Nat)
     obtain ⟨t, f, L, hl, _, _, _⟩ := locate_inrange lens i 0 hi.1 hi.2
     have ih' := ih (fun j hj => h j (by simp [hj]))
     simp only [partitionIndices] at ih' ⊢
-    rw [List.filterMap_cons_some hl, List.map_cons, ih', flatOf_locate lens i _ hl]
+    simp only [List.filterMap_cons, hl, List.map_cons, ih', flatOf_locate lens i _ hl]
 
 /-- in general: exactly the indices `< total` survive (in order), each addressing itself -/
 theorem partitionIndices_map_flat_general (inds : List Int) (lens : List Nat) (hne : lens ≠ []) :
@@ -173,16 +173,20 @@ theorem partitionIndices_map_flat_general (inds : List Int) (lens : List Nat) (h
     simp only [partitionIndices] at ih ⊢
     cases hl : locate lens i 0 with
     | none =>
-      have := (locate_none_iff lens i 0).1 hl
-      rw [List.filterMap_cons_none hl, ih, List.filter_cons_of_neg (by simp; omega)]
+      have hle : (lens.sum : Int) ≤ i := by
+        rcases (locate_none_iff lens i 0).1 hl with h | h
+        · exact absurd h hne
+        · exact h
+      simp only [List.filterMap_cons, hl, ih]
+      rw [List.filter_cons_of_neg (by simp; omega)]
     | some p =>
       have hlt : i < (lens.sum : Int) := by
         by_cases hc : i < (lens.sum : Int)
         · exact hc
         · have := (locate_none_iff lens i 0).2 (Or.inr (by omega))
           rw [this] at hl; simp at hl
-      rw [List.filterMap_cons_some hl, List.map_cons, ih, flatOf_locate lens i p hl,
-        List.filter_cons_of_pos (by simpa using hlt)]
+      simp only [List.filterMap_cons, hl, List.map_cons, ih, flatOf_locate lens i p hl]
+      rw [List.filter_cons_of_pos (by simpa using hlt)]
 
 /-- the (trajectory, frame) pair addresses the same element in the partitioned list -/
 theorem splitBy_getElem {α} (l : List α) (lens : List Nat) (t f L : Nat)
@@ -197,7 +201,7 @@ theorem splitBy_getElem {α} (l : List α) (lens : List Nat) (t f L : Nat)
     | zero =>
       simp at hL; subst hL
       refine ⟨l.take a, by simp [splitBy], ?_, by simp [startOf_zero]; omega⟩
-      simp [startOf_zero, List.getElem?_take, hf]
+      simp [startOf_zero, hf]
     | succ t =>
       simp only [List.getElem?_cons_succ] at hL
       obtain ⟨row, hr, hrow, hlt⟩ := ih (l.drop a) t hL (by simp; omega)
@@ -218,6 +222,16 @@ theorem allEqual_iff (lens : List Nat) : allEqual lens = true ↔ ∀ x ∈ lens
     · intro h x hx
       exact h a (by simp) x hx
 
+theorem le_sum_of_mem' {x : Nat} {l : List Nat} (h : x ∈ l) : x ≤ l.sum := by
+  induction l with
+  | nil => simp at h
+  | cons a as ih =>
+    simp only [List.mem_cons] at h
+    simp only [List.sum_cons]
+    rcases h with h | h
+    · omega
+    · have := ih h; omega
+
 theorem sum_pos_of_not_allEqual (lens : List Nat) (h : allEqual lens = false) : 0 < lens.sum := by
   by_cases hc : 0 < lens.sum
   · exact hc
@@ -225,7 +239,7 @@ theorem sum_pos_of_not_allEqual (lens : List Nat) (h : allEqual lens = false) : 
   have hz : lens.sum = 0 := by omega
   have hall : ∀ x ∈ lens, x = 0 := by
     intro x hx
-    have := List.le_sum_of_mem hx
+    have := le_sum_of_mem' hx
     omega
   have : allEqual lens = true := (allEqual_iff lens).2 (fun x hx y hy => by rw [hall x hx, hall y hy])
   simp [this] at h
